@@ -3,6 +3,7 @@ package main
 // Symbolic execution of statements; loops are cut at their invariants.
 
 import (
+	"sync"
 	"fmt"
 	"go/ast"
 	"go/token"
@@ -520,7 +521,81 @@ func (c *FCtx) loopSpec(n ast.Node) (*LoopSpec, int) {
 	if c.curCon == nil {
 		return nil, ord
 	}
-	return c.curCon.Loops[ord], ord
+	return c.curCon.Loops[loopRecorded(c.curFI, c.curCon, ord)], ord
+}
+
+// loopRecorded: the ordinal that the loop which is now the ord-th had when the contract was written.  Identity unless
+// the names clause records loop fingerprints, the current loops are a permutation of the recorded ones, and they are
+// not in the recorded order (loops with equal fingerprints keep their relative order; loops without a recorded twin take
+// the remaining recorded ordinals in order).
+var loopMapCache sync.Map // *Contract -> []int (index current ord-1 -> recorded ord)
+
+func loopRecorded(fi *FuncInfo, con *Contract, ord int) int {
+	if fi == nil || con == nil || len(con.LoopFP) == 0 || len(con.LoopFP) != len(fi.LoopFP) || ord < 1 || ord > len(fi.LoopFP) {
+		return ord
+	}
+	if v, ok := loopMapCache.Load(con); ok {
+		return v.([]int)[ord-1]
+	}
+	m := make([]int, len(fi.LoopFP))
+	used := make([]bool, len(con.LoopFP))
+	for k, fp := range fi.LoopFP {
+		m[k] = 0
+		for r, rfp := range con.LoopFP {
+			if !used[r] && rfp == fp {
+				m[k] = r + 1
+				used[r] = true
+				break
+			}
+		}
+	}
+	// loops whose body was edited as well: matched by what they call (the part after ':'), when that is unambiguous
+	sig := func(fp string) string {
+		if i := strings.Index(fp, ":"); i >= 0 {
+			return fp[i+1:]
+		}
+		return ""
+	}
+	for k, fp := range fi.LoopFP {
+		if m[k] != 0 || sig(fp) == "" {
+			continue
+		}
+		cand, n := -1, 0
+		for r2, rfp := range con.LoopFP {
+			if !used[r2] && sig(rfp) == sig(fp) {
+				cand = r2
+				n++
+			}
+		}
+		nCur := 0
+		for k2, fp2 := range fi.LoopFP {
+			if m[k2] == 0 && sig(fp2) == sig(fp) {
+				nCur++
+			}
+		}
+		if n == 1 && nCur == 1 {
+			m[k] = cand + 1
+			used[cand] = true
+		}
+	}
+	// the rest take the recorded ordinals that are left, in order
+	r := 0
+	for k := range m {
+		if m[k] != 0 {
+			continue
+		}
+		for r < len(used) && used[r] {
+			r++
+		}
+		if r < len(used) {
+			m[k] = r + 1
+			used[r] = true
+		} else {
+			m[k] = k + 1
+		}
+	}
+	loopMapCache.Store(con, m)
+	return m[ord-1]
 }
 
 func (c *FCtx) execFor(st *State, x *ast.ForStmt, label string) []Flow {
@@ -765,6 +840,12 @@ func (c *FCtx) dryRun(st *State, fn func(s *State) []Flow) map[int]bool {
 	c.side = saveSide
 	out := map[int]bool{}
 	for _, f := range flows {
+		if f.kind != fNormal {
+			// only what is written on a path that comes back to the loop head has to be forgotten there: a variable
+			// assigned just before a `return` / `break` / panic inside the body (`status = -1; return`) keeps its value at
+			// the head, and the leaving flow carries its own state
+			continue
+		}
 		for k := range f.st.written {
 			if _, existed := st.cells[k]; existed {
 				out[k] = true
